@@ -250,14 +250,26 @@ LINT_TEXT = (" Over the property's anchor files the check also runs the reposito
              "reassigned, PRT1 sibling switches partition their labels alike, TW1 twin guards agree on fabs.")
 
 EXTRA_TEXT = {
-    'C04': " (H2) Scale homogeneity: x, y and k returned by TransverseMercator/PolarStereographic::Forward have degree 1 in "
+    'C15': " (ECONST) the ellipsoid constants of AuxLatitude/Ellipsoid/DAuxLatitude equal their defining rational functions of (a, f); "
+           "(SYMM, ALT) symmetry of the divided differences and agreement of the alternative forms of DParametric; (PRT1) "
+           "ToAuxiliary/FromAuxiliary give every auxiliary-latitude kind its own arm.",
+    'C01': " (ECONST) the solver constructors' _e2, _f1, _n, _b, _ep2 equal their definitions; (M8b, SIB1) the series and exact "
+           "solver/line classes normalise alike and do not differ by the signature of a slip.",
+    'C02': " (ECONST, M8b, SIB1) as for C01, on the inverse path.",
+    'C03': " (ECONST, M8b, SIB1) as for C01, for the line classes.",
+    'C12': " (M8b, SIB1) sibling agreement of the series and exact classes.",
+    'C04': " (OFFS) Symbolic evaluation of UTMUPS::Forward/Reverse: the false easting/northing entries added after projecting are "
+           "the ones subtracted before unprojecting, indexed alike by (projection, hemisphere). (H2) Scale homogeneity: x, y and k returned by TransverseMercator/PolarStereographic::Forward have degree 1 in "
            "the scale k0 on every path, gamma degree 0; Reverse returns k of degree 1 and angles of degree 0.",
     'C06': " (H2) Scale homogeneity of TransverseMercator and TransverseMercatorExact Forward/Reverse: x, y, k of degree 1 in "
            "k0 and gamma, lat, lon of degree 0 on every path (a scale applied in one branch only is a mixed degree).",
-    'C11': " (H2) Scale homogeneity of the outputs of PolarStereographic and LambertConformalConic Forward/Reverse.",
+    'C11': " (H2) Scale homogeneity of the outputs of PolarStereographic and LambertConformalConic Forward/Reverse. (SYMM) "
+           "symmetry of the divided-difference helpers of LambertConformalConic and AlbersEqualArea. (ECONST) derived ellipsoid "
+           "constants of the seven constructors.",
     'C10': " (RW1) In the chain of literal rewrites of DMS::Decode a pattern that contains the product character of other "
            "rewrites (the pair '' -> \") comes after all of them, and a pattern containing another pattern comes before it.",
-    'C09': " (ZQ1) found and fixed: DAuxLatitude::DParametric evaluated a 0/0 quotient after taking reciprocals of its "
+    'C09': " (SYMM) the 17 divided-difference helpers return, path for path, the same expression with their two points exchanged; "
+           "(ALT) the tan/cot forms of DParametric are the same function. (ZQ1) found and fixed: DAuxLatitude::DParametric evaluated a 0/0 quotient after taking reciprocals of its "
            "operands (exact rhumb area NaN for east-west courses).",
 }
 
